@@ -550,6 +550,37 @@ func runSweep(payload string) string {
 			}
 		}
 	}
+	if mode == "nestedro" {
+		// the read-only Stack as a value that OTHER instances are given: pushed into a mutex-enabled collector (as it is, as an alias,
+		// as a Condition's expression, with a push policy), carried there by Transfer, compared, rendered - it stays exactly as it was
+		tok := "collect D?"
+		if roChild != nil {
+			roBefore := deepDump(roChild)
+			guard(func() string {
+				ro, _ := stackage.ConvertStack(roChild)
+				c1 := stackage.And()
+				c1.SetMutex()
+				c1.Push(ro, AStack(ro), stackage.Cond("k", stackage.Eq, ro))
+				c2 := stackage.List()
+				c2.SetMutex()
+				c2.SetPushPolicy(pushPolicy(4))
+				c2.Push(ro, "x")
+				src := stackage.Or().Push(ro, 1)
+				src.SetReadOnly(true)
+				c3 := stackage.And()
+				c3.SetMutex()
+				src.Transfer(c3)
+				_ = c1.String()
+				c1.IsEqual(c3)
+				c1.Unmarshal()
+				c1.Traverse(0, 0)
+				c1.IsNesting()
+				return ""
+			})
+			tok = "collect D" + b01(roBefore != deepDump(roChild))
+		}
+		outs = append(outs, tok)
+	}
 	if mode == "queries" && r.kind == "stack" && r.s.IsInit() {
 		// containers handed back must not be the stack's own storage
 		u, _ := r.s.Unmarshal()
